@@ -293,44 +293,59 @@ fn delete_body(main_id: u16, sub_id: u16, file_id: u32, offset_units: u32, block
     d
 }
 
-fn apply_delete_or_expand(op: u8) {
+/// SQPK 'D' / 'E' through the whole of `ZiPatch::apply`: offset, block count and ids are concrete per instance (shape),
+/// the platform comes from the preceding 'T' command, the previous contents of the data file (when it exists), the
+/// reserved / CRC bytes of the commands are symbolic.  Afterwards exactly one file exists, it carries the name built
+/// from (category, expansion, chunk, platform, data file number), the `blocks` x 128 bytes from 128 x `off` are an
+/// empty-block header followed by zeros, and every other byte keeps its previous value.
+fn apply_delete_or_expand(op: u8, platform: u8, name: &str, off: u32, blocks: u32, existing: usize) {
     memfs::reset();
-    let off: u32 = kani::any();
-    kani::assume(off <= 3);
-    let blocks: u32 = kani::any();
-    kani::assume(blocks >= 1 && blocks <= 2);
+    let old: [u8; 640] = kani::any();
+    if existing > 0 { memfs::add_file(name, &old[..existing]); }
     let mut p = PB::new();
-    p.sqpk(b'T', &target_info_body(0));
-    p.sqpk(op, &delete_body(0x0a, 0x0102, 3, off, blocks));
+    let mut t = target_info_body(platform);
+    // (the debug flag stays concrete: Option<SqpkTargetInfo> keeps its discriminant in that bool's spare values, and a symbolic
+    // flag turns `target_info.as_ref().unwrap()` into an if-then-else pointer)
+    t[0] = kani::any(); t[9] = kani::any(); t[10] = kani::any(); t[60] = kani::any();
+    p.sqpk(b'T', &t);
+    let mut d = delete_body(0x0a, 0x0102, 3, off, blocks);
+    d[0] = kani::any(); d[2] = kani::any(); d[19] = kani::any(); d[22] = kani::any();
+    p.sqpk(op, &d);
     p.eof();
     p.install();
     let r = ZiPatch::apply("/g", "p.patch");
     assert!(r.is_ok());
     assert!(!memfs::limit_hit());
-    // category 0a, expansion 1, chunk 02, platform win32, data file 3 -- and nothing else
-    let slot = memfs::find("/g/sqpack/ex1/0a0102.win32.dat3").expect("data file created");
+    let slot = memfs::find(name).expect("data file named by category / expansion / chunk / platform / file number");
     assert_eq!(memfs::file_count(), 1);
     let start = off as usize * 128;
-    assert_eq!(memfs::file_len(slot), start + blocks as usize * 128);
+    let end = start + blocks as usize * 128;
+    assert_eq!(memfs::file_len(slot), if end > existing { end } else { existing });
     let k: usize = kani::any();
     kani::assume(k < memfs::file_len(slot));
-    let want = if k < start { 0 } else if k < start + 20 { empty_block_byte(k - start, blocks as u64) } else { 0 };
+    let want = if k >= start && k < start + 20 { empty_block_byte(k - start, blocks as u64) } else if k >= start && k < end { 0 } else if k < existing { old[k] } else { 0 };
     assert_eq!(memfs::file_byte(slot, k), want);
-    kani::cover!(off == 3 && blocks == 2);
-    kani::cover!(off == 0 && blocks == 1);
+    kani::cover!(k == start + 12);
+    kani::cover!(k + 1 == memfs::file_len(slot));
 }
 #[kani::proof]
 #[kani::unwind(160)]
 #[kani::stub(core::str::validations::run_utf8_validation, ascii_utf8_validation)]
 #[kani::stub(core::slice::memchr::memchr_aligned, naive_memchr)]
 #[kani::stub(core::slice::memchr::memrchr, naive_memrchr)]
-fn c03_apply_delete_data() { apply_delete_or_expand(b'D'); }
+fn c03_apply_delete_data() { apply_delete_or_expand(b'D', 0, "/g/sqpack/ex1/0a0102.win32.dat3", 2, 2, 640); }
 #[kani::proof]
 #[kani::unwind(160)]
 #[kani::stub(core::str::validations::run_utf8_validation, ascii_utf8_validation)]
 #[kani::stub(core::slice::memchr::memchr_aligned, naive_memchr)]
 #[kani::stub(core::slice::memchr::memrchr, naive_memrchr)]
-fn c03_apply_expand_data() { apply_delete_or_expand(b'E'); }
+fn c03_apply_expand_data() { apply_delete_or_expand(b'E', 2, "/g/sqpack/ex1/0a0102.ps4.dat3", 1, 3, 0); }
+#[kani::proof]
+#[kani::unwind(160)]
+#[kani::stub(core::str::validations::run_utf8_validation, ascii_utf8_validation)]
+#[kani::stub(core::slice::memchr::memchr_aligned, naive_memchr)]
+#[kani::stub(core::slice::memchr::memrchr, naive_memrchr)]
+fn c03_apply_delete_data_across_end() { apply_delete_or_expand(b'D', 1, "/g/sqpack/ex1/0a0102.ps3.dat3", 2, 4, 384); }
 
 /// 'A' body: 3 reserved, main id, sub id, file id, block offset / byte count / delete count (each in units of 128), data
 fn add_data_header(main_id: u16, sub_id: u16, file_id: u32, offset_units: u32, data_units: u32, delete_units: u32) -> [u8; 23] {
@@ -348,14 +363,17 @@ fn add_data_header(main_id: u16, sub_id: u16, file_id: u32, offset_units: u32, d
 #[kani::stub(core::str::validations::run_utf8_validation, ascii_utf8_validation)]
 #[kani::stub(core::slice::memchr::memchr_aligned, naive_memchr)]
 #[kani::stub(core::slice::memchr::memrchr, naive_memrchr)]
-fn c03_apply_add_data() {
+fn c03_apply_add_data() { apply_add_data(1, 1); }
+#[kani::proof]
+#[kani::unwind(160)]
+#[kani::stub(core::str::validations::run_utf8_validation, ascii_utf8_validation)]
+#[kani::stub(core::slice::memchr::memchr_aligned, naive_memchr)]
+#[kani::stub(core::slice::memchr::memrchr, naive_memrchr)]
+fn c03_apply_add_data_at_end_no_delete() { apply_add_data(5, 0); }
+fn apply_add_data(off: u32, del: u32) {
     memfs::reset();
     let old: [u8; 640] = kani::any();
     memfs::add_file("/g/sqpack/ffxiv/040003.ps4.dat1", &old);
-    let off: u32 = kani::any();
-    kani::assume(off <= 4);
-    let del: u32 = kani::any();
-    kani::assume(del <= 1);
     let payload: [u8; 128] = kani::any();
     let mut body = [0u8; 23 + 128];
     let h = add_data_header(0x04, 0x0003, 1, off, 1, del);
@@ -380,8 +398,8 @@ fn c03_apply_add_data() {
     kani::assume(k < memfs::file_len(slot));
     let want = if k >= start && k < start + 128 { payload[k - start] } else if k >= start + 128 && k < end { 0 } else if k < 640 { old[k] } else { 0 };
     assert_eq!(memfs::file_byte(slot, k), want);
-    kani::cover!(off == 4 && del == 1);
-    kani::cover!(off == 0 && del == 0);
+    kani::cover!(k == start);
+    kani::cover!(k + 1 == memfs::file_len(slot));
 }
 
 /// SQPK 'F' body: operation letter, 2 reserved, offset, size, path length (incl. NUL), expansion id, 2 reserved, path
@@ -418,15 +436,25 @@ fn raw_block<const L: usize>(content: &[u8; L]) -> [u8; 128] {
 #[kani::stub(core::str::validations::run_utf8_validation, ascii_utf8_validation)]
 #[kani::stub(core::slice::memchr::memchr_aligned, naive_memchr)]
 #[kani::stub(core::slice::memchr::memrchr, naive_memrchr)]
-fn c03_apply_add_file() {
+fn c03_apply_add_file_overwrite_at_3() { apply_add_file(true, 3); }
+#[kani::proof]
+#[kani::unwind(160)]
+#[kani::stub(core::str::validations::run_utf8_validation, ascii_utf8_validation)]
+#[kani::stub(core::slice::memchr::memchr_aligned, naive_memchr)]
+#[kani::stub(core::slice::memchr::memrchr, naive_memrchr)]
+fn c03_apply_add_file_replace_at_0() { apply_add_file(true, 0); }
+#[kani::proof]
+#[kani::unwind(160)]
+#[kani::stub(core::str::validations::run_utf8_validation, ascii_utf8_validation)]
+#[kani::stub(core::slice::memchr::memchr_aligned, naive_memchr)]
+#[kani::stub(core::slice::memchr::memrchr, naive_memrchr)]
+fn c03_apply_add_file_new_at_16() { apply_add_file(false, 16); }
+fn apply_add_file(existed: bool, offset: u64) {
     memfs::reset();
     let old: [u8; 12] = kani::any();
-    let existed: bool = kani::any();
     if existed { memfs::add_file("/g/ab/c.de", &old); }
     let other: [u8; 4] = kani::any();
     memfs::add_file("/g/ab/keep", &other);
-    let offset: u64 = kani::any();
-    kani::assume(offset <= 16);
     let content: [u8; 5] = kani::any();
     let fb = file_op_body(b'A', offset, 5, 0);
     let blk = raw_block(&content);
@@ -460,9 +488,7 @@ fn c03_apply_add_file() {
     let j: usize = kani::any();
     kani::assume(j < 4);
     assert_eq!(memfs::file_byte(ks, j), other[j]);
-    kani::cover!(existed && o == 3);
-    kani::cover!(existed && o == 0);
-    kani::cover!(!existed && o == 16);
+    kani::cover!(k == o);
 }
 
 /// SQPK 'F' 'D' (delete file) removes exactly the named file; 'M' (make dir tree) creates its parent directory
@@ -471,13 +497,19 @@ fn c03_apply_add_file() {
 #[kani::stub(core::str::validations::run_utf8_validation, ascii_utf8_validation)]
 #[kani::stub(core::slice::memchr::memchr_aligned, naive_memchr)]
 #[kani::stub(core::slice::memchr::memrchr, naive_memrchr)]
-fn c03_apply_delete_file_and_mkdir() {
+fn c03_apply_delete_file() { apply_delete_file_or_mkdir(false); }
+#[kani::proof]
+#[kani::unwind(160)]
+#[kani::stub(core::str::validations::run_utf8_validation, ascii_utf8_validation)]
+#[kani::stub(core::slice::memchr::memchr_aligned, naive_memchr)]
+#[kani::stub(core::slice::memchr::memrchr, naive_memrchr)]
+fn c03_apply_make_dir_tree() { apply_delete_file_or_mkdir(true); }
+fn apply_delete_file_or_mkdir(mkdir: bool) {
     memfs::reset();
     let a: [u8; 6] = kani::any();
     let b: [u8; 4] = kani::any();
     memfs::add_file("/g/ab/c.de", &a);
     memfs::add_file("/g/ab/keep", &b);
-    let mkdir: bool = kani::any();
     let mut p = PB::new();
     p.sqpk(b'T', &target_info_body(0));
     p.sqpk(b'F', &file_op_body(if mkdir { b'M' } else { b'D' }, kani::any(), kani::any(), kani::any()));
@@ -497,8 +529,7 @@ fn c03_apply_delete_file_and_mkdir() {
         assert!(memfs::find("/g/ab/c.de").is_none());
         assert_eq!(memfs::file_count(), 1);
     }
-    kani::cover!(mkdir);
-    kani::cover!(!mkdir);
+    kani::cover!(true);
 }
 
 /// a patch that ends before its EOF_ chunk (truncated download) is reported as an error
@@ -527,6 +558,80 @@ fn c17_apply_patch_without_eof_is_an_error() { truncated_patch(0); }
 #[kani::stub(core::slice::memchr::memrchr, naive_memrchr)]
 fn c17_apply_patch_cut_mid_command_is_an_error() { truncated_patch(20); }
 
+
+/// two target-info commands: commands after the second one are applied to the files of the SECOND platform
+#[kani::proof]
+#[kani::unwind(160)]
+#[kani::stub(core::str::validations::run_utf8_validation, ascii_utf8_validation)]
+#[kani::stub(core::slice::memchr::memchr_aligned, naive_memchr)]
+#[kani::stub(core::slice::memchr::memrchr, naive_memrchr)]
+fn c03_apply_second_target_info_wins() {
+    memfs::reset();
+    let mut p = PB::new();
+    p.sqpk(b'T', &target_info_body(0));
+    p.sqpk(b'T', &target_info_body(2));
+    p.sqpk(b'E', &delete_body(0x04, 0x0000, 0, 0, 1));
+    p.eof();
+    p.install();
+    assert!(ZiPatch::apply("/g", "p.patch").is_ok());
+    assert!(!memfs::limit_hit());
+    assert!(memfs::find("/g/sqpack/ffxiv/040000.ps4.dat0").is_some());
+    assert!(memfs::find("/g/sqpack/ffxiv/040000.win32.dat0").is_none());
+    assert_eq!(memfs::file_count(), 1);
+    kani::cover!(true);
+}
+
+/// SQPK 'H' (header update): a version header replaces the first KiB, an index / data header the second KiB, of the
+/// dat file (`<cat><exp><chunk>.<platform>.dat<N>`) or of the index file (`.index`, `.index<N>` for N != 0) the
+/// command names; the other KiB and every other file keep their contents
+fn apply_header_update(file_kind: u8, header_kind: u8, file_id: u32, name: &str) {
+    memfs::reset();
+    let old: [u8; 2048] = kani::any();
+    memfs::add_file(name, &old);
+    let data: [u8; 1024] = kani::any();
+    let mut body = [0u8; 11 + 1024];
+    body[0] = file_kind; body[1] = header_kind; body[2] = kani::any();
+    body[3] = 0x00; body[4] = 0x0a; body[5] = 0x02; body[6] = 0x00;   // main id 0x000a, sub id 0x0200 (expansion 2, chunk 0)
+    let f = file_id.to_be_bytes();
+    body[7] = f[0]; body[8] = f[1]; body[9] = f[2]; body[10] = f[3];
+    let mut i = 0;
+    while i < 1024 { body[11 + i] = data[i]; i += 1; }
+    let mut p = PB::new();
+    p.sqpk(b'T', &target_info_body(0));
+    p.sqpk(b'H', &body);
+    p.eof();
+    p.install();
+    assert!(ZiPatch::apply("/g", "p.patch").is_ok());
+    assert!(!memfs::limit_hit());
+    let slot = memfs::find(name).expect("the file the header command names");
+    assert_eq!(memfs::file_count(), 1);
+    assert_eq!(memfs::file_len(slot), 2048);
+    let first = header_kind == b'V';
+    let k: usize = kani::any();
+    kani::assume(k < 2048);
+    let want = if first { if k < 1024 { data[k] } else { old[k] } } else { if k < 1024 { old[k] } else { data[k - 1024] } };
+    assert_eq!(memfs::file_byte(slot, k), want);
+    kani::cover!(k == 1023);
+    kani::cover!(k == 1024);
+}
+#[kani::proof]
+#[kani::unwind(1040)]
+#[kani::stub(core::str::validations::run_utf8_validation, ascii_utf8_validation)]
+#[kani::stub(core::slice::memchr::memchr_aligned, naive_memchr)]
+#[kani::stub(core::slice::memchr::memrchr, naive_memrchr)]
+fn c03_apply_header_update_dat_version() { apply_header_update(b'D', b'V', 1, "/g/sqpack/ex2/0a0200.win32.dat1"); }
+#[kani::proof]
+#[kani::unwind(1040)]
+#[kani::stub(core::str::validations::run_utf8_validation, ascii_utf8_validation)]
+#[kani::stub(core::slice::memchr::memchr_aligned, naive_memchr)]
+#[kani::stub(core::slice::memchr::memrchr, naive_memrchr)]
+fn c03_apply_header_update_index_data() { apply_header_update(b'I', b'D', 0, "/g/sqpack/ex2/0a0200.win32.index"); }
+#[kani::proof]
+#[kani::unwind(1040)]
+#[kani::stub(core::str::validations::run_utf8_validation, ascii_utf8_validation)]
+#[kani::stub(core::slice::memchr::memchr_aligned, naive_memchr)]
+#[kani::stub(core::slice::memchr::memrchr, naive_memrchr)]
+fn c03_apply_header_update_index2_index() { apply_header_update(b'I', b'I', 2, "/g/sqpack/ex2/0a0200.win32.index2"); }
 
 // ---- zz probes (temporary) ----
 fn zz_spin(n: usize) { let mut k = 0; while k < n { k += 1; } }
@@ -757,4 +862,34 @@ fn zz_v21() {
     let t = zz_ti();
     let o = Some(t);
     match o { Some(t2) => zz_plat(&t2), None => zz_spin(200) }
+}
+#[kani::proof]
+#[kani::unwind(160)]
+fn zz_v22() {
+    let r: Result<SqpkOperation, binrw::Error> = Ok(SqpkOperation::TargetInfo(zz_ti()));
+    match r.unwrap() { SqpkOperation::TargetInfo(t) => zz_plat(&t), _ => zz_spin(200) }
+}
+#[kani::proof]
+#[kani::unwind(160)]
+fn zz_v23() {
+    let r: Result<SqpkOperation, u8> = Ok(SqpkOperation::TargetInfo(zz_ti()));
+    match r { Ok(SqpkOperation::TargetInfo(t)) => zz_plat(&t), _ => zz_spin(200) }
+}
+#[kani::proof]
+#[kani::unwind(160)]
+fn zz_v24() {
+    let r: Option<SqpkOperation> = Some(SqpkOperation::TargetInfo(zz_ti()));
+    match r { Some(SqpkOperation::TargetInfo(t)) => zz_plat(&t), _ => zz_spin(200) }
+}
+#[kani::proof]
+#[kani::unwind(160)]
+fn zz_v25() {
+    let c = SqpkChunk { size: 3, operation: SqpkOperation::TargetInfo(zz_ti()) };
+    match c.operation { SqpkOperation::TargetInfo(t) => zz_plat(&t), _ => zz_spin(200) }
+}
+#[kani::proof]
+#[kani::unwind(160)]
+fn zz_v26() {
+    let ct = ChunkType::Sqpk(SqpkChunk { size: 3, operation: SqpkOperation::TargetInfo(zz_ti()) });
+    match ct { ChunkType::Sqpk(pc) => match pc.operation { SqpkOperation::TargetInfo(t) => zz_plat(&t), _ => zz_spin(200) }, _ => zz_spin(200) }
 }
